@@ -9,6 +9,7 @@ import (
 	"go/token"
 	"go/types"
 	"golang.org/x/tools/go/cfg"
+	"golang.org/x/tools/go/packages"
 	"reflect"
 	"sort"
 	"strings"
@@ -821,10 +822,36 @@ func ruleSweepAnswers(c *Ctx) {
 			body := rs.Body
 			awaitIdx := -1
 			for i, st := range rs.Body.List {
-				for _, call := range callsIn(st) {
-					if fn, ok := calleeOf(info, call).(*types.Func); ok && fn.Pkg() != nil && fn.Pkg().Path() == pkgGocoro && fn.Name() == "Await" {
-						awaitIdx = i
+				if awaitsHandOff(m.Pk, st, 0) {
+					awaitIdx = i
+				}
+			}
+			if awaitIdx >= 0 {
+				// the record's command follows the await of its hand-off on every path of the iteration
+				okey := fmt.Sprintf("sweep-answers/%s/loop%d/after-await", bn, loopN)
+				g := buildCFG(m.Pk, continueToReturn(rs.Body))
+				gen := func(nd ast.Node) []string {
+					if _, isFn := nd.(*ast.FuncLit); isFn {
+						return nil
 					}
+					if awaitsHandOff(m.Pk, nd, 0) {
+						return []string{"awaited"}
+					}
+					return nil
+				}
+				at := mustFacts(g, gen, nil, func(nd ast.Node) bool { return isAnswer(info, nd) })
+				bad := token.NoPos
+				nAns := 0
+				for nd, fs := range at {
+					nAns++
+					if !fs["awaited"] && (bad == token.NoPos || nd.Pos() < bad) {
+						bad = nd.Pos()
+					}
+				}
+				if bad != token.NoPos {
+					c.bad(okey, bad, bn+": a command is built for a record before the hand-off made for it was awaited: the record's state change would be written without (or before) the recorded hand-off attempt")
+				} else {
+					c.ok(okey, rs.Pos(), fmt.Sprintf("%d answers follow the await of the record's hand-off on every path", nAns))
 				}
 			}
 			what := "each selected record is answered by exactly one command / spawned completion / hand-off"
@@ -1233,4 +1260,44 @@ func ruleStoreOpenOptions(c *Ctx) {
 	}
 	c.count("database_open_sites", n)
 	c.floor("sql.Open sites", n, 2)
+}
+
+// awaitsHandOff: the node awaits a future (gocoro.Await directly, or through a same-package helper
+// every normal exit of which has awaited).
+func awaitsHandOff(pk *packages.Package, nd ast.Node, depth int) bool {
+	info := pk.TypesInfo
+	for _, call := range callsIn(nd) {
+		fn, ok := calleeOf(info, call).(*types.Func)
+		if !ok || fn.Pkg() == nil {
+			continue
+		}
+		if fn.Pkg().Path() == pkgGocoro && fn.Name() == "Await" {
+			return true
+		}
+		if fn.Pkg() != pk.Types || depth >= 2 {
+			continue
+		}
+		fd := funcDeclOf(pk, fn)
+		if fd == nil || fd.Body == nil {
+			continue
+		}
+		g := buildCFG(pk, fd.Body)
+		gen := func(x ast.Node) []string {
+			if awaitsHandOff(pk, x, depth+1) {
+				return []string{"awaited"}
+			}
+			return nil
+		}
+		all, n := true, 0
+		for _, ex := range mustFactsAtExits(g, gen, nil) {
+			n++
+			if !ex.Facts["awaited"] {
+				all = false
+			}
+		}
+		if all && n > 0 {
+			return true
+		}
+	}
+	return false
 }
